@@ -79,13 +79,13 @@ CLAIMS["C05"] = (
 
 CLAIMS["C06"] = (
     "Reader conformance as contracts against the 7z format: header primitives for all encodings (C17 contracts), SignatureHeader._read, PackInfo._read (pack position, sizes, Digests structure with one CRC per DEFINED digest, END marker position, prefix-sum pack positions, for every count - ghost cut offsets over the input bytes), SubstreamsInfo._read (loop invariants over all folders / substreams: sizes from the Size record with the remainder rule, folders without streams, digest hand-out between folder-level CRCs and the record with the running record index pinned), UnpackInfo._retrieve_coders_info, FilesInfo._read (record walk) with _read_name / _read_times / _read_attributes (member k gets the k-th stored value, undefined stays undefined), Header._read, SevenZipFile._real_get_contents (header parsed only after its CRC matched; members appended in header order and to their folder's list under their own index; a member's digest is present exactly when its OWN defined flag is set; password flag from every folder), _get_fileinfo_sizes, ArchiveFileList (ids), Worker.extract / extract_single (every folder with members gets exactly one decoding task at afterheader + pack position + packpositions[i]).",
-    'Not under contract: Folder._read, UnpackInfo._read (outer part), StreamsInfo.read, SevenZipDecompressor.__init__ (chain selection), FilesInfo._read_start_pos (observed: its assert compares bytes with an int). The exit clauses of SubstreamsInfo._read that restate the invariants over the whole section are drafted but not discharged (disabled, DESIGN.md 11). The folder/stream arithmetic of _real_get_contents is covered by per-iteration trace obligations, not by one inductive invariant. Two BOUNDED stand-ins (labelled bounded) exercise the junctions no contract covers: 3000 seeded MainStreamsInfo sections and 400 seeded whole archives written by an independent encoder / COPY-coder writer must be read back exactly as described. Codec libraries and third-party writers are assumed to follow their contracts. Genuine defects found and repaired: FX11-FX16, FX18, FX19, FX23 (folder CRC of a multi-member folder compared too early), FX28., FX30 (directory entries of archives that store no attributes were extracted as empty files). FilesInfo._mark_directories is not under contract (exercised by the bounded reference archives, which are drawn with and without attributes).',
+    'StreamsInfo.read is under contract (sections in format order, each reader chosen by the id just read, SubStreamsInfo parsed against the folders just read or defaulted from memory, own rejections only for an id that may not follow). Not under contract: Folder._read, UnpackInfo._read (outer part), StreamsInfo.retrieve / PackInfo.retrieve / UnpackInfo.retrieve / SubstreamsInfo.retrieve (three-line class methods, assumed to return the object they build), SevenZipDecompressor.__init__ (chain selection), FilesInfo._read_start_pos (observed: its assert compares bytes with an int). The exit clauses of SubstreamsInfo._read that restate the invariants over the whole section are drafted but not discharged (disabled, DESIGN.md 11). The folder/stream arithmetic of _real_get_contents is covered by per-iteration trace obligations, not by one inductive invariant. Two BOUNDED stand-ins (labelled bounded) exercise the junctions no contract covers: 3000 seeded MainStreamsInfo sections and 400 seeded whole archives written by an independent encoder / COPY-coder writer must be read back exactly as described. Codec libraries and third-party writers are assumed to follow their contracts. Genuine defects found and repaired: FX11-FX16, FX18, FX19, FX23 (folder CRC of a multi-member folder compared too early), FX28., FX30 (directory entries of archives that store no attributes were extracted as empty files). FilesInfo._mark_directories is not under contract (exercised by the bounded reference archives, which are drawn with and without attributes).',
     'DESIGN.md 7 (C06), 11',
 )
 
 CLAIMS["C08"] = (
     "Append as contracts on the real code: SubstreamsInfo.write (exact layout for every folder/stream count: NumUnpackStream record iff some folder differs from one, a size NUMBER for every substream except the last of its folder with the cursor over ALL substreams, Digests structure with one CRC per defined digest, END) and PackInfo.write proved byte-exactly with ghost cut offsets; UnpackInfo.write (section skeleton, every folder once, no extra records); FilesInfo writers (C07); Header.initialize in append mode adds exactly one folder at the end, bumps the folder count and appends a zero stream counter, touching nothing else; Worker._after_write appends one size/CRC/flag and increments the LAST folder's counter; Worker.archive archives exactly the member at the cursor and advances it by one; Worker.flush_archive records exactly one pack stream; Worker.__init__ starts the cursor behind the existing members; _prepare_append positions the file at afterheader + pack position + total packed size; the read side (PackInfo._read, SubstreamsInfo._read, FilesInfo readers).",
-    'BOUNDED stand-in (labelled bounded in the evidence, not counted as proved): every 2-session history with up to 2 members per session over file / zero-length file / directory / zero-length writestr plus 100 seeded 3-session histories is run on the real code each quick run (all 3-session histories in the thorough tier). Otherwise histories are not enumerated: each session is the same code under the same contracts and the member list after a session is old ++ new by these per-call contracts (written argument, DESIGN.md 7). A second bounded stand-in re-serialises 3000 seeded stream sections with the real StreamsInfo.write and reads them back (found FX22: PackInfo.write indexed the pack CRCs by stream although they are kept per defined digest). Folder.write / StreamsInfo.write are not under contract. Genuine defects found and repaired: FX11, FX12, FX15, FX16, FX17, FX19, FX22. Open finding F30: appending to an archive from another writer drops the creation times and empty-file flags of the members already there (FilesInfo.write emits only LastWriteTime).',
+    'BOUNDED stand-in (labelled bounded in the evidence, not counted as proved): every 2-session history with up to 2 members per session over file / zero-length file / directory / zero-length writestr plus 100 seeded 3-session histories is run on the real code each quick run (all 3-session histories in the thorough tier). Otherwise histories are not enumerated: each session is the same code under the same contracts and the member list after a session is old ++ new by these per-call contracts (written argument, DESIGN.md 7). A second bounded stand-in re-serialises 3000 seeded stream sections with the real StreamsInfo.write and reads them back (found FX22: PackInfo.write indexed the pack CRCs by stream although they are kept per defined digest). StreamsInfo.write is under contract (id, the present sections once in format order into the same stream, END); Folder.write is not. Genuine defects found and repaired: FX11, FX12, FX15, FX16, FX17, FX19, FX22. Open finding F30: appending to an archive from another writer drops the creation times and empty-file flags of the members already there (FilesInfo.write emits only LastWriteTime).',
     'DESIGN.md 7 (C08), 11',
 )
 
